@@ -242,10 +242,12 @@ class Ctx:
             out("MODEL-DRIFT: property=%s %s" % (self.pid, d[:300]))
         if len(self.drift) > 5:
             out("MODEL-DRIFT: property=%s ... %d more" % (self.pid, len(self.drift) - 5))
-        for sig, what, path in self.violations:
+        for sig, what, path in self.violations[:15]:
             out("VIOLATION property=%s replay=%s" % (self.pid, path))
             out("  signature: %s" % sig)
-            out("  what: %s" % what)
+            out("  what: %s" % what[:1500])
+        if len(self.violations) > 15:
+            out("  ... and %d more distinct violations (replay files under %s)" % (len(self.violations) - 15, os.path.dirname(self.violations[0][2])))
         cov = dict(self.cov)
         cov["rule"] = rule
         cov["exhaustive"] = bool(exhaustive)
